@@ -1,7 +1,7 @@
 META = {
     "level": "model_checking",
     "technique": "TLA+ writer/reader state machine over a token wire (SftpAttr.tla: one Pack*/Unpack* step per flagged field group) model-checked by TLC over every presence combination x boundary values x extended maps and over sequences of independent attribute objects (what a block yields depends on its own input only); each TLC-emitted attribute set replayed through the real SFTPAttributes._pack/_unpack on a token-recording Message; recorded pack/unpack results of seeded random attribute sets validated by TLC against the same clause operators (SftpAttr_Trace.tla)",
-    "text": "TLC enumerates all 2^5 presence combinations of size, uid/gid, permissions, atime/mtime and extended attributes with boundary values (0, 1, 2^32-1, 2^32, 2^64-1 as 16-bit limbs) and extended maps of 0-2 entries, checks on the model that the flag word is exactly the set of groups present, that the reader consumes exactly what the writer wrote, that absent fields are never decoded and that the decoded set equals the encoded one, and emits every attribute set with its token encoding; each is packed and unpacked by the real code and flags, written tokens, read tokens and decoded fields are judged by TLC; sets are run in sequences on newly created objects (SFTPAttributes(), from_stat, _from_msg; extended attributes assigned or set in place) so state leaking between objects fails the clauses of the later block; seeded random sequences add full-range 64/32-bit values, maps of up to 6 entries with str/bytes/non-ASCII/empty/long members, half-specified pairs and fractional times (the last two as conformance only)",
+    "text": "TLC enumerates all 2^5 presence combinations of size, uid/gid, permissions, atime/mtime and extended attributes with boundary values (0, 1, 2^32-1, 2^32, 2^64-1 as 16-bit limbs; the quick tier uses 0, 2^32-1, 2^32, 2^64-1) and extended maps of 0-2 entries, checks on the model that the flag word is exactly the set of groups present, that the reader consumes exactly what the writer wrote, that absent fields are never decoded and that the decoded set equals the encoded one, and emits every attribute set with its token encoding; each is packed and unpacked by the real code and flags, written tokens, read tokens and decoded fields are judged by TLC; sets are run in sequences on newly created objects (SFTPAttributes(), from_stat, _from_msg; extended attributes assigned or set in place) so state leaking between objects fails the clauses of the later block; seeded random sequences add full-range 64/32-bit values, maps of up to 6 entries with str/bytes/non-ASCII/empty/long members, half-specified pairs and fractional times (the last two as conformance only)",
     "note": "trusted: TLC, the Message subclass that logs outermost add_*/get_* calls as tokens, int<->limb conversion; uid/gid and atime/mtime are one optional pair each and extended attributes are compared as byte strings (DESIGN.md Appendix F); byte layout of the tokens is C39's concern",
 }
 import random
@@ -9,7 +9,7 @@ from harness.core import cfg_text, Machinery
 from harness.drivers import codec
 
 MUTATIONS = {"mode_flag_not_set": "PackOK", "ext_count_short": "PackOK", "times_swapped": "RoundTrip"}
-QUICK = {"U32Vals": "U32Quick", "U64Vals": "U64Quick", "Keys": "KeysTwo", "Vals": "ValsTwo"}
+QUICK = {"U32Vals": "U32Quick", "U64Vals": "U64Two", "Keys": "KeysTwo", "Vals": "ValsTwo"}
 TINY = {"U32Vals": "U32Quick", "U64Vals": "U64One", "Keys": "KeysOne", "Vals": "ValsTwo"}      # sensitivity runs
 SEQ = {"U32Vals": "U32One", "U64Vals": "U64One", "Keys": "KeysOne", "Vals": "ValsTwo"}         # sequences of sets
 FULL = {"U32Vals": "U32Full", "U64Vals": "U64Full", "Keys": "KeysTwo", "Vals": "ValsFull"}
@@ -151,12 +151,12 @@ def run(c):
     c.mc_holds("SftpAttr", cfg(SEQ, invariants=invs, blocks=3), name="sequences of 3 independent attribute sets", workers=4)
     # all new objects aliasing one extended map (mutable default argument) as a model: a later set without extended
     # attributes inherits them - the statement's invariants must fail
-    c.mc("SftpAttr", cfg(SEQ, invariants=["PackOK", "AbsentStaysAbsent", "RoundTrip"], blocks=2, shared=True), expect="AbsentStaysAbsent",
+    c.mc("SftpAttr", cfg(SEQ, invariants=["AbsentStaysAbsent"], blocks=2, shared=True), expect="AbsentStaysAbsent",
          workers=1, name="shared extended map between objects")
     if not c.quick:
-        c.mc("SftpAttr", cfg(TINY, invariants=invs, fix=False), expect="RoundTrip", workers=4, name="names/values swapped on unpack")
+        c.mc("SftpAttr", cfg(TINY, invariants=["RoundTrip"], fix=False), expect="RoundTrip", workers=4, name="names/values swapped on unpack")
         for mut, inv in MUTATIONS.items():
-            c.mc("SftpAttr", cfg(TINY, mutation=mut, invariants=invs), expect=inv, name="mutation " + mut, workers=4)
+            c.mc("SftpAttr", cfg(TINY, mutation=mut, invariants=[inv]), expect=inv, name="mutation " + mut, workers=4)
     # ---- RP: spec -> code.  The emitted sets, three per sequence, one sequence after the other in this process
     rnd = random.Random(c.seed)
     traces, expect, presence = [], [], set()
